@@ -1,7 +1,7 @@
 #!/bin/bash
 # usage: confirm_mutant.sh <ID> <n: "" or 2>
 # Confirms an independent change: applies to /repo HEAD, builds, baseline green, demo FAILS with it and PASSES without it.
-ID=$1; N=$2; SRC=/tmp/mut/$ID
+ID=$1; N=$2; SRC=${MUTROOT:-/tmp/mut}/$ID
 WT=/tmp/confirm/$ID$N-$$; mkdir -p /tmp/confirm
 git -C /repo worktree add --detach $WT HEAD -q || exit 3
 DEMO=$SRC/demo${N}_test.go
